@@ -466,10 +466,8 @@ def dep_target_tox(sx, brty, shape):
 # ----------------------------------------------------------------------------
 # (3) nfc.llcp.llc - activation parameters and the run loop
 # ----------------------------------------------------------------------------
-from env import llcp as envl
 import nfc.llcp
 import nfc.llcp.llc as llcmod
-import nfc.llcp.tco as tco
 
 envl.install()
 
